@@ -45,29 +45,41 @@ CHECKS.update({
                  "generated circuits x semirings x flags x batch sizes)"),
     "C02": mixed("contract obligations: fold_settings 2-safety (equal fold settings imply equal configuration) and rebuild-from-config for every "
                  "parameter node and for tensor parameters (shape, requires_grad, dtype); the einsum optimisation rule equals ReduceSum o OuterProduct "
-                 "for every rank <= 4 and dim pair; fold-pointwise kernels (shared with C14); flag-independence end-to-end (grouping, address book, graph "
-                 "surgery, layer-level optimisation rules) is a bounded stand-in: four flag settings with tied parameters vs the reference interpreter"),
+                 "for every rank <= 4 and dim pair; fold-pointwise kernels (shared with C14); 2-safety of fold_settings for EVERY concrete layer class (classes read "
+                 "from the tree: equal fold settings imply equal config, parameter names / shapes, number of variables) and _fold_layers_group (config of the group, "
+                 "scope_idx / parameters / wrapped layers in group order, folds summed); build_folded_graph and address-book entries on templates; the pattern "
+                 "matchers _match_parameter_nodes_pattern / _match_layer_pattern return only exclusive chains (symbolic in/out-degrees, free class membership, "
+                 "pattern length <= 4, config and parameter sub-patterns); apply_tucker / apply_candecomp / apply_sum_collapse and the fused kernels in the "
+                 "compiler's semiring; optimize_graph's splicing, match prioritisation and flag-independence end-to-end on arbitrary circuits are a bounded "
+                 "stand-in: four flag settings with tied parameters vs the reference interpreter"),
     "C03": mixed("contract obligations: every integration rule against the spec integral (sum over states / logsumexp / log-partition, right space flag, "
                  "refusal outside the scope) for all sizes; functional.integrate executed symbolically on four circuit templates x five input kinds with "
                  "symbolic variable ids, unit counts and Z: one layer per layer, wiring and output order mirrored, integrated layers constant, others "
-                 "reference copies, result scope = scope \\ Z; the constant layer's kernel and the einsum rewrite of the integrals of products; arbitrary "
-                 "DAG shapes and the numeric end-to-end statement (incl. nested = union) only by the bounded stand-in vs brute-force sums / quadrature"),
+                 "reference copies, result scope = scope \\ Z; the loop of functional.integrate by the Hoare loop rule on the real statements (prefix, ONE iteration "
+                 "from an arbitrary state of the layer->block map per layer kind, suffix for 1-3 outputs; the induction principle itself is assumed); the constant "
+                 "layer's kernel, its fold_settings (log_space never merged) and the einsum rewrite of the integrals of products; the numeric end-to-end "
+                 "statement (incl. nested = union) on arbitrary DAGs only by the bounded stand-in vs brute-force sums / quadrature"),
     "C04": mixed("contract obligations: every multiplication rule places unit (o1, o2) at o1*K2+o2 and computes the product (embedding, categorical in "
                  "logits/probs combinations, gaussian closed forms with operand log-partitions, polynomial operand order and degree, hadamard) and the "
                  "sum-layer alignment lemma (Kronecker weight columns vs product inputs (h1,h2) and units (i1,i2)) for ALL arities and unit counts; refusals "
-                 "on different scopes / state counts; the stack loop of functional.multiply and the Kronecker-layer permutation matrix (numpy) only by the "
-                 "bounded stand-in (compiled multiply vs Kronecker-ordered product of reference values)"),
+                 "on different scopes / state counts; functional.multiply executed on four template pairs x three input kinds (pair layers by the rules of their "
+                 "classes, sum x sum inputs first-operand-major, product x product zipped, disjoint scopes as a binary Kronecker over copies, outputs = product "
+                 "of the output lists, references to exactly the two operand layers' tensors); arbitrary DAGs and the Kronecker-layer permutation matrix "
+                 "(numpy) only by the bounded stand-in (compiled multiply vs Kronecker-ordered product of reference values)"),
     "C05": mixed("contract obligations: Scope.__iter__ strictly increasing for every finite set of ids (set iteration modelled as arbitrary order); "
-                 "differentiate_polynomial_layer coefficients / degree / zero polynomial / refusal for orders 1..3; TorchPolynomialDifferential kernel; the "
-                 "loop of functional.differentiate (block order across sums and products) only by the bounded stand-in vs exact polynomial derivatives"),
+                 "differentiate_polynomial_layer coefficients / degree / zero polynomial / refusal for orders 1..3; TorchPolynomialDifferential kernel; "
+                 "functional.differentiate executed on four templates (single polynomial, 2-ary Kronecker and Hadamard products, 3-ary product) for orders 1-2: "
+                 "outputs variable-major then order, differentiated input kept at its position in Kronecker products; arbitrary DAGs only by the bounded "
+                 "stand-in vs exact polynomial derivatives"),
     "C06": mixed("contract obligations: functional.evidence executed symbolically on four templates x three input kinds (observed layers become evidence "
                  "layers over a reference copy observing the value of their own variable, scope = scope \\ obs, refusals) and functional.concatenate on "
                  "three operand pairs (layers and outputs operand by operand); evidence-layer kernel (same value for every batch row, wrapped layer at the "
-                 "observation of its fold); tensors of different dtype never share a fold; arbitrary DAG shapes / flags by the bounded stand-in"),
+                 "observation of its fold); the loop of functional.evidence by the Hoare loop rule (one iteration from an arbitrary map state); tensors of "
+                 "different dtype never share a fold, evidence layers fold only with equal wrapped configuration; arbitrary DAG shapes / flags by the bounded stand-in"),
     "C07": mixed("contract obligations: every conjugation rule keeps class, scope, configuration and EVERY parameter (conjugated for embedding / "
                  "polynomial / sum, carried over for categorical / gaussian incl. log_partition) for complex and real operands and for references into "
-                 "operand tensors; functional.conjugate on four templates x four input kinds; numeric clause conj(c) incl. conjugate of derived circuits by "
-                 "the bounded stand-in"),
+                 "operand tensors; functional.conjugate on four templates x four input kinds (outputs in DECLARED order) and its loop by the Hoare loop rule; "
+                 "numeric clause conj(c) incl. conjugate of derived circuits by the bounded stand-in"),
     "C08": mixed("contract obligations on circuit templates whose variable ids are symbolic and NOT assumed distinct (every equality pattern of the ids "
                  "is explored): is_smooth / is_decomposable iff their definitions (arity 3 and 4 products: ALL pairs; sums; a product over a non-smooth sum in "
                  "both input orders), is_structured_decomposable and are_compatible sound w.r.t. 'same scope => same set of sub-scopes', are_compatible symmetric "
@@ -75,17 +87,23 @@ CHECKS.update({
                  "independent set-based oracle"),
     "C09": mixed("contract obligations: integrate / differentiate / multiply refuse a non-smooth and a non-decomposable (non-adjacent overlap in an "
                  "arity-3 product) template with StructuralPropertyError; integrate and evidence refuse empty / foreign variable sets, differentiate and the "
-                 "polynomial rule refuse orders <= 0, rules refuse foreign scopes (ValueError); result scope / output order clauses of C03/C06/C07 templates; "
+                 "polynomial rule refuse orders <= 0, rules refuse foreign scopes (ValueError); multiply of product layers listing their inputs in different scope "
+                 "orders is refused or returns a circuit that is still smooth and decomposable (Hadamard and Kronecker, three input kinds); result scope / output "
+                 "order clauses of C03/C06/C07 templates; "
                  "flags of results of arbitrary circuits recomputed by an independent oracle only in the bounded stand-in"),
     "C10": mixed("contract obligations: Parameter.ref on seven parameter-graph shapes and Layer.copyref for every layer class denote the same value of "
                  "the SAME tensor objects, own no tensor parameter, and use operand tensors only behind references; the same sharing clause on every "
-                 "operator rule and on the results of integrate / conjugate / evidence templates; TorchPointerParameter reads the current target slice; "
-                 "frame obligation: no evaluation method of a compiled module writes object state (so every in-place update is observed); update histories "
+                 "operator rule (registered under this property too) and on the results of integrate / conjugate / evidence / multiply templates; "
+                 "TorchPointerParameter reads the current target slice; frame obligations: no evaluation method of a compiled module writes object state (so every "
+                 "in-place update is observed) and reset_parameters of a circuit / parameter graph / pointer reaches only its own parameter graphs / nodes, never "
+                 "the operand's tensors; update histories "
                  "end-to-end by the bounded stand-in"),
     "C11": mixed("contract obligations: log_partition_function / integrate of every exp-family layer return (F, 1, K) with the right value for all "
-                 "F, K (no accidental broadcast when batch == folds); forward kernels per fold and batch row; IntegrateQuery (mask construction, per-sample "
-                 "selection, rejection of out-of-scope variables) only by the bounded stand-in vs brute-force marginals in the three input formats"),
-    "C12": mixed("contract obligations: RegionGraph.build_circuit on two region-graph templates x {cp, cp-t, tucker}: EVERY sum layer takes its weight from "
+                 "F, K (no accidental broadcast when batch == folds); forward kernels per fold and batch row; IntegrateQuery: mask sizes for the scope-list "
+                 "formats, _layer_fn selects integrate() exactly for layers whose variable is masked per sample, the query object keeps no state between calls; "
+                 "end-to-end marginals in the three input formats by the bounded stand-in vs brute-force marginals"),
+    "C12": mixed("contract obligations: RegionGraph.build_circuit on four region-graph templates (tree, two partitions of the root, root region that is itself "
+                 "an input region over one / two variables) x {cp, cp-t, tucker}: EVERY sum layer takes its weight from "
                  "the caller's normalising factory (softmax on the last axis of an unconstrained tensor of the sum's own weight shape; n-ary mixing sums from "
                  "the n-ary factory = mixing_weight_factory over a softmax on the arity axis), input layers are the caller's, the circuit is smooth, "
                  "decomposable, has num_classes output units; mixing_weight_factory shape arithmetic; kernels of the normalising nodes (softmax / log-softmax / "
@@ -95,7 +113,8 @@ CHECKS.update({
     "C16": mixed("contract obligations on region-graph templates with symbolic, possibly coinciding ids: RegionGraph(...) returning normally implies "
                  "validity (children of a partition pairwise disjoint and covering it, partitions of a region share its scope, one parent per partition), empty "
                  "scopes refused; is_structured_decomposable iff partitions with equal scope - also under different region nodes - split alike; "
-                 "is_omni_compatible iff all child regions univariate; the algorithms (numpy / random / image grids / Chow-Liu), dump / load and build_circuit "
+                 "is_omni_compatible iff all child regions univariate; build_circuit on four templates x three abstractions (well-formed, smooth, decomposable, "
+                 "structured-decomposable like the graph, num_classes outputs); the algorithms (numpy / random / image grids / Chow-Liu) and dump / load "
                  "are covered by the bounded stand-in only (every algorithm over small argument spaces, independent validator, round trip, three abstractions "
                  "and explicit factories)"),
     "C15": ("other", "contract obligations on the STRUCTURAL clauses: TorchSumLayer.sample returns, per fold / output unit / sample, the sample of the "
@@ -108,19 +127,21 @@ CHECKS.update({
             "the statistical threshold admits a false alarm probability < 1e-8 per run and is deterministic for a fixed VERIF_SEED",
             "contract obligations (z3) on the sampling layout + bounded seeded statistical check against exact probabilities", "4/C15"),
     "C17": mixed("contract obligation: tensor parameters folded into one storage agree on shape, requires_grad and dtype (fold_settings 2-safety); "
-                 "initialiser rules / fold-wise initialisation (values of every registry slice after compile and resets vs its own initialiser, also when "
-                 "folded with differently initialised parameters) are a bounded stand-in"),
+                 "the Dirichlet rule draws on the declared axis of the parameter's own shape (rank <= 3, every axis), foldwise_initializer_ sends initialiser i to "
+                 "fold slice i, tensor / constant rules carry learnable / dtype / value, folding a group of tensor parameters keeps member order; values of every "
+                 "registry slice after compile and resets vs its own initialiser (also when folded with differently initialised parameters) are a bounded stand-in"),
     "C18": mixed("contract obligations from ARBITRARY registry states (the two dicts of the BiMap are symbolic maps, so the representation invariant is "
                  "preserved over every history by induction): add / lookups / compile memoisation / round trip; PipelineContext operators (refuse unknown "
                  "compiled circuits, apply the symbolic operator with the context's own registry, compile the result); compile_pipeline on three operand-DAG "
                  "shapes x three pre-states; context enter/exit with the ContextVar contract for nesting depths 1..3 with and without exceptions, sequential "
                  "re-use, distinct registry per context; random longer histories and topological ordering of arbitrary DAGs by the bounded stand-in"),
     "C19": ("other", "contract obligations (syntactic frame): no evaluation method writes object state, learnable storage is allocated at exactly one "
-            "site (TorchTensorParameter._ptensor); the decisive step (nn.Module state_dict / load_state_dict) is an assumed contract of a dependency, so "
+            "site (TorchTensorParameter._ptensor), reset_parameters of a circuit / parameter graph / pointer re-initialises exactly its own parameter graphs / "
+            "nodes (never a wrapped layer's or the tensor a pointer refers to, so compiling a derived circuit leaves loaded values alone); the decisive step (nn.Module state_dict / load_state_dict) is an assumed contract of a dependency, so "
             "no proof is claimed; BOUNDED STAND-IN: save -> fresh re-initialised (and already evaluated, incl. frozen random tensors) compile -> "
-            "load_state_dict(strict) -> equal outputs for base and derived circuits under the four flag settings",
+            "load_state_dict(strict) -> equal outputs for base and derived circuits (also derived circuits compiled or reset AFTER the load) under the four flag settings",
             PROOF_NOTE + " || " + BOUNDED_NOTE + "; torch.save/torch.load and nn.Module.state_dict/load_state_dict are trusted",
-            "syntactic frame obligations on the real source + bounded native round-trip check", "4/C19"),
+            "frame obligations on the real source (syntactic + executed reset_parameters) + bounded native round-trip check", "4/C19"),
     "C20": mixed("contract obligations: cp / tucker circuits for tensor orders 2-4 (factor j over variable j with shape[j] states and rank units, product "
                  "over all factors in mode order - Kronecker for tucker with rank**n units -, unweighted cp sums with constant ones), hmm for 12 orderings of "
                  "1-4 variables (chain follows the ordering, the input layer of variable v gets the arguments listed for v, latent units, one output unit, "
@@ -167,7 +188,7 @@ def main():
         "checks": checks,
         "not_applicable": NOT_APPLICABLE,
         "notes": "unclaimed properties (no check, not 'not applicable'): " + ", ".join(
-            p for p in [f"C{i:02d}" for i in range(1, 21)] if p not in claimed) + " - see DESIGN.md section 9 (status)",
+            p for p in [f"C{i:02d}" for i in range(1, 21)] if p not in claimed) + " - see DESIGN.md sections 10-11 (status)",
     }
     with open(os.path.join(ROOT, "MANIFEST.json"), "w") as f:
         json.dump(man, f, indent=1)
